@@ -1231,6 +1231,12 @@ def _edge_atoms_of(prog, f, bb, label, o):
             for a1, b1 in (("Result::is_err", "Result::is_ok"), ("Result::is_ok", "Result::is_err"), ("Option::is_none", "Option::is_some"), ("Option::is_some", "Option::is_none")):
                 if (o[2] or "").endswith(a1):
                     atoms.append(Atom("call", name=(o[2] or "")[:-len(a1)] + b1, site=o[1], recv=receiver_leaf(f, ct), truth=not truth, origin=o))
+            # ... and the same fact as matching on the value: `x.is_some()` true == `x` is Some
+            for q1, yes, no in (("Option::is_some", "Some", "None"), ("Option::is_none", "None", "Some"), ("Result::is_ok", "Ok", "Err"), ("Result::is_err", "Err", "Ok")):
+                if (o[2] or "").endswith(q1) and ct.get("args"):
+                    x = simplify(trace_operand(f, ct["args"][0]))
+                    while x[0] in ("ref", "deref"): x = x[1]
+                    atoms.append(Atom("variant", origin=x, name=yes if truth else no))
         elif o[0] == "bin" and o[1] in CMP_OPS:
             op = o[1] if truth else CMP_NEG[o[1]]
             ca, cb = simplify(o[2]), simplify(o[3])
